@@ -210,6 +210,7 @@ func vh_C14_ManyCallers() {
 // request buffer holds): StartWithVal returns, its value reaches the FIRST YieldRef, and every waiting request is then
 // taken once and answered to its own caller with the value of the YieldRef that took it
 func vh_C14_StartWithValAfterQueued() {
+	vfSetDelayBound(1) // up to 8 goroutines: one scheduling deviation anywhere, in both tiers
 	callers := vfRange("callers", 0, 6)
 	v := vfInt("start-value")
 	var target *CorDef[int]
